@@ -106,18 +106,52 @@ func VerifC08Config() {
 	c08Run(c08Columns[0], comp, vrt.Bool("compress.enable"))
 }
 
+// VerifC08Protobuf: the protobuf serializer (the conversion between the undo-log
+// structures and the generated message types and the JSON encoding of the column
+// values inside it are interpreted; the protobuf library's wire format is a model),
+// every column kind, images of two rows.
+func VerifC08Protobuf() {
+	c08ForceSerializer = "protobuf"
+	c08ImageRows = 2
+	c08Run(c08Columns[vrt.Choice("column", len(c08Columns))], "None", false)
+}
+
+var c08ForceSerializer string
+var c08ImageRows = 1
+
 func c08Run(col c08Column, comp string, enable bool) {
-	ser := c08Serializers[vrt.Choice("serializer", vrt.Param("serializers", 1))]
+	ser := c08ForceSerializer
+	if ser == "" {
+		ser = c08Serializers[vrt.Choice("serializer", vrt.Param("serializers", 1))]
+	}
 	undo.UndoConfig = undo.Config{LogSerialization: ser, CompressConfig: undo.CompressConfig{Enable: enable, Type: comp, Threshold: "64k"}}
 
 	id := vrt.Int64("id")
 	before, after := col.mk(), col.mk()
 	vrt.Assume(c08Finite(before) && c08Finite(after)) // NaN / Inf cannot be stored in a MySQL column
-	mkImage := func(v interface{}) *types.RecordImage {
-		return &types.RecordImage{TableName: "t", SQLType: types.SQLTypeUpdate, Rows: []types.RowImage{{Columns: []types.ColumnImage{
+	// a second row (key 7, another value of the same kind) when the entry asks for it
+	var before2, after2 interface{}
+	if c08ImageRows > 1 {
+		if vrt.Param("secondrow", 0) == 1 {
+			before2, after2 = col.mk(), col.mk()
+			vrt.Assume(c08Finite(before2) && c08Finite(after2))
+		} else {
+			// no new unknowns: the second row holds the first row's values the other way round
+			before2, after2 = after, before
+		}
+	}
+	mkImage := func(v, v2 interface{}) *types.RecordImage {
+		im := &types.RecordImage{TableName: "t", SQLType: types.SQLTypeUpdate, Rows: []types.RowImage{{Columns: []types.ColumnImage{
 			{KeyType: types.IndexTypePrimaryKey, ColumnName: "id", ColumnType: types.JDBCTypeBigInt, Value: id},
 			{KeyType: types.IndexTypeNull, ColumnName: "c", ColumnType: col.jdbc, Value: v},
 		}}}}
+		if c08ImageRows > 1 {
+			im.Rows = append(im.Rows, types.RowImage{Columns: []types.ColumnImage{
+				{KeyType: types.IndexTypePrimaryKey, ColumnName: "id", ColumnType: types.JDBCTypeBigInt, Value: int64(7)},
+				{KeyType: types.IndexTypeNull, ColumnName: "c", ColumnType: col.jdbc, Value: v2},
+			}})
+		}
+		return im
 	}
 	xid := vrt.String("xid", 2)
 	vrt.Assume(xid[0]-0x20 < 0x5f) // xids are ASCII (address:port:number)
@@ -125,12 +159,15 @@ func c08Run(col c08Column, comp string, enable bool) {
 	branchID := vrt.Uint64("branch")
 	tranCtx := types.NewTxCtx()
 	tranCtx.XID, tranCtx.BranchID, tranCtx.DBType, tranCtx.TransactionMode = xid, branchID, types.DBTypeMySQL, types.ATMode
-	tranCtx.RoundImages.AppendBeofreImage(mkImage(before))
-	tranCtx.RoundImages.AppendAfterImage(mkImage(after))
+	tranCtx.RoundImages.AppendBeofreImage(mkImage(before, before2))
+	tranCtx.RoundImages.AppendAfterImage(mkImage(after, after2))
 
 	m := NewBaseUndoLogManager()
 	conn := &c08Conn{}
 	tag := col.name
+	if c08ForceSerializer != "" {
+		tag = c08ForceSerializer + "-" + col.name
+	}
 	if comp != "None" || enable {
 		tag = "compress-" + comp
 		if enable {
@@ -210,13 +247,23 @@ func c08Run(col c08Column, comp string, enable bool) {
 		return
 	}
 	for k, pair := range []struct {
-		img  *types.RecordImage
-		want interface{}
-	}{{l.BeforeImage, before}, {l.AfterImage, after}} {
+		img   *types.RecordImage
+		want  interface{}
+		want2 interface{}
+	}{{l.BeforeImage, before, before2}, {l.AfterImage, after, after2}} {
 		which := []string{"before", "after"}[k]
-		vrt.Assert(len(pair.img.Rows) == 1 && len(pair.img.Rows[0].Columns) == 2, "c08/row-and-column-count-restored/"+tag)
-		if len(pair.img.Rows) != 1 || len(pair.img.Rows[0].Columns) != 2 {
+		vrt.Assert(len(pair.img.Rows) == c08ImageRows && len(pair.img.Rows[0].Columns) == 2, "c08/row-and-column-count-restored/"+tag)
+		if len(pair.img.Rows) != c08ImageRows || len(pair.img.Rows[0].Columns) != 2 {
 			return
+		}
+		if c08ImageRows > 1 {
+			vrt.Assert(len(pair.img.Rows[1].Columns) == 2, "c08/row-and-column-count-restored/"+tag)
+			if len(pair.img.Rows[1].Columns) != 2 {
+				return
+			}
+			d0, d1 := pair.img.Rows[1].Columns[0], pair.img.Rows[1].Columns[1]
+			vrt.Assert(datasource.DeepEqual(d0.Value, int64(7)), "c08/second-row-key-restored/"+which+"/"+tag)
+			vrt.Assert(d1.ColumnName == "c" && d1.ColumnType == col.jdbc && datasource.DeepEqual(d1.Value, pair.want2), "c08/second-row-value-restored/"+which+"/"+tag)
 		}
 		c0, c1 := pair.img.Rows[0].Columns[0], pair.img.Rows[0].Columns[1]
 		vrt.Assert(c0.ColumnName == "id" && c0.KeyType == types.IndexTypePrimaryKey && c0.ColumnType == types.JDBCTypeBigInt, "c08/key-column-flags-restored/"+tag)
